@@ -41,7 +41,7 @@ add("C03", "model_checking",
     "(entered through the generated switch) on 5 multi-rule-set definitions incl. dropped/inlined first states: only rules of the active set match, switch / switch_and_return enter "
     "exactly the named set, failures return to Init.",
     BOUNDED_NOTE + "renumber_state: assumed spec of [T]::binary_search and of derive(Ord) on StateIdx; sortedness of inlined_states is a precondition (CgCtx::new not verified). simplify_remap: loop headers, the "
-    "order-preserving iterator chains and DFA::add_dfa (which places a rule set's states) are not verified; assumed spec of [T]::binary_search_by.",
+    "order-preserving iterator chains are not verified; assumed spec of [T]::binary_search_by. DFA::add_dfa (which places a rule set's states and returns its entry index) is proved on the real text up to two trusted fragments.",
     "Verus contract on renumber_state + bounded step-contract harnesses with symbolic rule set", "5 C03, 11.4")
 add("C04", "model_checking",
     "Bounded: 9 right-context definitions (multi-character literal, a character vs a range covering it inside the context, `$`, negative, nullable, context on a non-first rule, "
